@@ -629,7 +629,7 @@ let run_case (line : string) =
           Printf.printf "%s\tDOCS\t%s\t%s\t%s\t%s\t%s\n" id
             (show (bind dh (render_html true))) (show (bind dr (render_roff (manpage_th app)))) (sd dh) (sd dr)
             (show (bind dh (render_markdown true)))
-        | [A "invariant"] -> Printf.printf "%s\tINVARIANT\t%b\t%b\n" id (invariant_ok (match o with Options (p, _) -> meta_of p)) (oko o)
+        | [A "invariant"] -> Printf.printf "%s\tINVARIANT\t%b\t%b\n" id (check_invariants_ok (match o with Options (p, _) -> meta_of p)) (oko o)
         | _ -> Printf.printf "%s\tBADMODE\n" id)
      with Failure m -> Printf.printf "%s\tBADCASE\t%s\n" id m
         | Not_found -> Printf.printf "%s\tBADCASE\tnot_found\n" id
